@@ -30,14 +30,14 @@ fn main() {
             let progs = progchecks::Progs::default();
             progchecks::c36_programs(&mut ctx, &progs);
             progchecks::c36_passthrough_pair(&mut ctx);
-            ctx.extra.insert("sim_compile_secs".into(), progs.compile_secs.get().into());
+            ctx.extra.insert("sim_compile_secs".into(), (*progs.compile_secs.lock().unwrap()).into());
         }
         "C37" => {
             ctx.rule = "hook level: for every enumerated scenario (same space as C36) the set of outcomes (sequence of normalised releases) reached over all decision tapes, and over all inputs of bolero's exhaustive driver, is compared for equality with the outcome set of an independent reference model. Non-trivial: outcome set with >=5 elements.".into();
             hookchecks::c37_hooks(&mut ctx);
             let progs = progchecks::Progs::default();
             progchecks::c37_programs(&mut ctx, &progs);
-            ctx.extra.insert("sim_compile_secs".into(), progs.compile_secs.get().into());
+            ctx.extra.insert("sim_compile_secs".into(), (*progs.compile_secs.lock().unwrap()).into());
         }
         "C38" => {
             ctx.rule = "corpus of 13 simulator programs (ordered/unordered/keyed batches, slices with snapshots, hooked top-level fold, two ticks, top-level and in-tick ordering observations, 3-member cluster relay over fail-stop TCP, quorum helper, atomic keyed counter, 3-member raft) x proptest decision tapes (0..4096 bytes; bolero's byte driver pads with zeros); each tape is replayed with CompiledSim::fuzz_repro + run_with_scheduler_and_logger twice in this process and (per program, batches of tapes) once in a freshly spawned process; decision log (colour off), outputs and verdict are compared. Non-trivial: the decision log has >=5 non-trivial decisions. Distinct: hash of (program, tape).".into();
